@@ -233,7 +233,7 @@ def _wrap_init(cls):
         names.append(p.name)
     src = ('def __init__(%s):\n'
            '    if type(self) is _cls or _cls.__name__ in [b.__name__ for b in type(self).__bases__]:\n'
-           '        _rec.append((_cls.__name__, {%s}, type(self).__name__))\n'
+           '        _rec.append((_cls.__name__, {%s}, type(self).__name__, id(self)))\n'
            '    return _orig(%s)\n') % (', '.join(decl), ', '.join('%r: %s' % (n, n) for n in names), ', '.join(call))
     exec(src, ns)
     fn = ns['__init__']
@@ -398,7 +398,7 @@ def run_vector(vec, paths, tmp, n):
         res['err'] = type(ex).__name__
         res['msg'] = str(ex)[:200]
     want = vec.get('cls') or ''
-    rec = [(c, kw) for c, kw, _ in _REC]
+    rec = [(r[0], r[1]) for r in _REC]
     res['rec'] = [[c, {k: jsonable(v) for k, v in kw.items()}] for c, kw in rec if c == want][:1]
     res['rec_classes'] = [c for c, _ in rec]
     os.unlink(path)
